@@ -19,7 +19,7 @@ func VerifC23SendProgress() {
 	rt.SchedBound(0, false)
 	A, Me := clNewPeer(1), clNewPeer(60)
 	w := clNewWorld(Me, A, true)
-	epoch := uint64(1 + rt.Choose("firstEpoch", 3))
+	epoch := rt.U64("firstEpoch") // epochs are arbitrary 64-bit values
 	openBeforeSend := rt.Choose("openBeforeSend", 2) == 1
 	if openBeforeSend {
 		w.sess.respCh <- clOpened(epoch)
@@ -45,7 +45,9 @@ func VerifC23SendProgress() {
 				rt.Quiesce()
 			}
 		}
-		epoch += uint64(1 + rt.Choose("epochStep", 2))
+		next := rt.U64("nextEpoch")
+		rt.Assume(next != epoch) // a re-open carries a new epoch
+		epoch = next
 		w.sess.respCh <- clOpened(epoch)
 		if rt.Choose("settleAfterOpened", 2) == 1 {
 			rt.Quiesce()
